@@ -105,7 +105,7 @@ func cases(run *vf.Run) ([]json.RawMessage, error) {
 		out = append(out, vf.Spec(histSpec{Kind: "hist", Idx: i, Seed: vf.SubSeed(run.Seed, "C16-hist-case", i), Ops: ops + rng.Intn(30), IntervalMs: []int{1, 5, 10, 10, 30}[rng.Intn(5)], Cfg: cfg}))
 	}
 	// databases larger than 4 GiB (appended last: the indices of the cases above do not move)
-	bigs := []bigSpec{{PageSize: 65536, Rounds: []string{"upd-ovf", "span", "grow-zero"}, RestartAt: 1}}
+	bigs := []bigSpec{{PageSize: 65536, Rounds: []string{"span", "multi"}, RestartAt: 1}}
 	if run.Tier == "thorough" {
 		bigs = []bigSpec{
 			{PageSize: 65536, Rounds: []string{"upd-hi", "upd-ovf", "span", "grow-zero", "multi"}, RestartAt: 2},
